@@ -233,9 +233,33 @@ func forkJoin(c *Check, r *Repo, ea *effAnalysis, reach []*ssa.Function) {
 				"the spawner touches shared state before the join: "+strings.Join(conf, "; "))
 		}
 	}
-	c.Floor("R-forkjoin", nSpawn, 2)
-	if nWrites < 3 {
-		c.Und("R-forkjoin", "write-set floor", "", fmt.Sprintf("only %d shared written locations found in the spawned closures (expected ≥3: Tree.rulesCount, the captured usage counters, Tree.werr); the effect analysis no longer sees the writes", nWrites))
+	if nSpawn == 0 {
+		// no goroutine is started anywhere in what Compile reaches: nothing can race
+		// inside one generation; this is not a moved anchor as long as no go
+		// statement and no WaitGroup.Go call exists in the analysed functions
+		hidden := ""
+		for _, f := range reach {
+			instrsOf(f, func(in ssa.Instruction) {
+				switch x := in.(type) {
+				case *ssa.Go:
+					hidden = r.pos(x.Pos())
+				case *ssa.Call:
+					if n := calleeName(x); n == "(*sync.WaitGroup).Go" || strings.HasPrefix(n, "(*golang.org/x/sync/errgroup.Group).Go") {
+						hidden = r.pos(x.Pos())
+					}
+				}
+			})
+		}
+		if hidden == "" {
+			c.OK("R-forkjoin", "Compile/no goroutine is started", "", fmt.Sprintf("%d functions reachable from Compile contain neither a go statement nor a WaitGroup.Go call: one generation is sequential", len(reach)))
+			return
+		}
+		c.Und("R-forkjoin", "Compile/spawn sites", hidden, "a goroutine is started here but the effect analysis recorded no spawn site (checker needs maintenance)")
+		return
+	}
+	c.Floor("R-forkjoin", nSpawn, 1)
+	if nWrites < 1 {
+		c.Und("R-forkjoin", "write-set floor", "", fmt.Sprintf("only %d shared written locations found in the spawned closures (expected ≥1, e.g. Tree.rulesCount, the captured usage counters, Tree.werr); the effect analysis no longer sees the writes", nWrites))
 	}
 }
 
